@@ -69,10 +69,10 @@ Definition skeleton_ok (root : yaml) : bool :=
   end.
 
 (* ------------------------------------------------------------------ log level aliases *)
-(* opt-log-level-or-alias-prop: integer (>= 0) | string | null *)
+(* opt-log-level-or-alias-prop: integer (>= 0; Draft 7 counts 1.0 as an integer) | string | null *)
 Definition ll_prop_ok (ert : yaml) : bool :=
   match ylookup "log-level" ert with
-  | None | Some YNull | Some (YInt _) | Some (YStr _) => true
+  | None | Some YNull | Some (YInt _) | Some (YFloat _) | Some (YStr _) => true
   | Some _ => false
   end.
 
